@@ -111,6 +111,17 @@ def printer_table(F, p):
                     words.append(m.group(1))
         for f in flds:
             table.setdefault(f, []).extend(words)
+    # table-driven printers: `(self.<flag>, "<word>")` pairs collected in an array and filtered on the flag
+    for blk in blocks:
+        if blk['cleanup']:
+            continue
+        for st in blk['s']:
+            if st[0] == 'assign' and st[2][0] == 'agg' and st[2][1][0] == 'tuple' and len(st[2][2]) == 2:
+                f_op, w_op = st[2][2]
+                flds = [r[2][-1] for r in F.trace(p, f_op) if r[0] == 'param' and r[2] and r[2][-1] in ATTR_FIELDS | FLAGS]
+                words = [v[1] for v in F.operand_literals(p, w_op) if v[0] == 'str' and re.match(r'^[a-z-]+$', v[1])]
+                if len(flds) == 1 and len(words) == 1:
+                    table.setdefault(flds[0], []).append(words[0])
     return table
 
 
